@@ -117,7 +117,7 @@ CHECKS = {
         'text': 'ApInterpOps.tla gives aperture interpolation of one row exactly (PwLin: refuse below, clamp above, linear between, single aperture repeated); ApInterp.tla builds every table '
                 'over radii subsets of {1,2,4,8,16} AU (1..3 knots quick, 1..4 thorough), 2 rows, values in {0,1,3} (0..3) and TLC checks ExactAtKnots, LinearBetween, ClampedAbove, RefusedBelow, '
                 'SingleRepeats and that one too-small request refuses the call while others are unaffected, for 15 requests from below to above the table.  Every sampled table is replayed into '
-                'ConvolvedFluxes.interpolate (table and requests in AU/pc/cm, flux and error rows), SED.interpolate (bare numbers in AU and quantities) and SED.interpolate_variable (bare numbers in AU, table in AU/pc/cm); a request ON a tabulated radius is derived from the table's own stored value converted to the request's unit; '
+                'ConvolvedFluxes.interpolate (table and requests in AU/pc/cm, flux and error rows), SED.interpolate (bare numbers in AU and quantities) and SED.interpolate_variable (bare numbers in AU, table in AU/pc/cm); a request ON a tabulated radius is derived from the stored value of the table converted to the unit of the request; '
                 'recorded random tables (1-8 knots, 1-6 rows) are validated by Trace_ApInterp.',
         'ref': 'DESIGN.md section 6 C13',
         'note': _NOTE + ' No refusal is admitted at a tabulated radius (requests on the table are derived from the table); the plotting variant may use 0.999 x largest radius at and above the table end.',
